@@ -298,7 +298,7 @@ def run(ck):
                "after every op the full live/deleted partition with flags and counters is compared with the model and the invariant is checked "
                "directly on the objects and on describe_state; non-trivial = at least two delete/restore ops; plus bounded-exhaustive sequences")
     coq_props(ck)
-    gen_tie.check(ck, ["fs", "file"])
+    gen_tie.check(ck, ["fs", "file", "pretick"])
     coq_in = []
     for k in range(ck.n(250, 1500)):
         run_seq(ck, ck.seed, gen_ops(ck.rng, ck.rng.randint(6, 24)), coq_in, "rand")
